@@ -13,7 +13,9 @@ Result line: `t=<tag> r=<slots> a0=<slots> … cp=<ids> mv=<ids> ram=<ids> lost=
 prefixed with `~` when the object is moved-from; `cp` and `ram` sorted without duplicates,
 `mv` sorted with multiplicity (moves out of argument objects, in-place moves included), `lost` sorted with
 multiplicity (live values destroyed or overwritten during the call), `mk` = number of values the user's functions
-made from nothing (fresh values and values derived from an lvalue).
+made from nothing (fresh values and values derived from an lvalue), `uc` = the value category with which the library
+handed an element to a user's function, one entry per element and call, in call order (`l` = lvalue, `r` = rvalue; see
+`ucOf` in Model/C05.lean).
 -/
 namespace Fcppt.C05.Drv
 open Fcppt.Proto
@@ -57,13 +59,15 @@ def made : Instr → Nat
   | .derive _ _ k _ => k
   | _ => 0
 
+def showUc (l : List Char) : String := if l.isEmpty then "-" else ",".intercalate (l.map fun c => c.toString)
+
 def line (o : Op) (inp : Input) : String :=
   let st := exec o inp
   if !st.oob.isEmpty then "fault:oob" else
   let args := (st.args.zipIdx.map fun (l, a) => s!"a{a}={showSlots l}")
   " ".intercalate ([s!"t={tag o inp}", s!"r={showSlots st.res}"] ++ args ++
     [s!"cp={showIds (sort (dedup st.cp))}", s!"mv={showIds (sort (st.mv ++ st.sw))}", s!"ram={showIds (sort (dedup st.ram))}",
-     s!"lost={showIds (sort st.lost)}", s!"mk={((prog o inp).map made).sum}"])
+     s!"lost={showIds (sort st.lost)}", s!"mk={((prog o inp).map made).sum}", s!"uc={showUc ((prog o inp).flatMap (ucOf o inp))}"])
 
 def handle (toks : List String) : String :=
   match toks with
